@@ -739,6 +739,47 @@ def o_gmd(case):
     return None
 
 
+S_FORMS = ['int64', 'int32', 'uint8', 'int8', 'uint16', 'float32', 'float16', 'float64']
+
+
+def o_gmd_typed_s(case):
+    """R1 for the singular-value ARGUMENT of gmd (in the other gmd cases S is what np.linalg.svd returned, a
+    float64 array): integer-valued singular values handed over as an integer / narrow float array or a python
+    sequence must give the decomposition of the float64 twin (the geometric mean of integers is not an integer)"""
+    _, _, misc, _ = _impl()
+    rs = np.random.RandomState(case['seed'])
+    m, n = case['m'], case['n']
+    cplx = case['cplx']
+    def unitary(k):
+        z = rs.randn(k, k) + (1j * rs.randn(k, k) if cplx else 0)
+        return np.linalg.qr(z)[0]
+    u, vh = unitary(m), unitary(n)
+    vals = [float(v) for v in case['S']]
+    form = case['form']
+    if form == 'list':
+        sarg = [int(v) for v in vals]
+    elif form == 'tuple':
+        sarg = tuple(int(v) for v in vals)
+    else:
+        sarg = np.array(vals, dtype=form)
+    sfx = ':S-form=' + form
+    try:
+        q, r, p = misc.gmd(u, sarg, vh)
+    except Exception as e:
+        return 'gmd-typed-S:raises' + sfx, '%s: %s' % (type(e).__name__, str(e)[:120])
+    k = len(vals)
+    sp = np.zeros((m, n))
+    sp[np.arange(k), np.arange(k)] = vals
+    a = u @ sp @ vh
+    e = np.abs(q @ r @ H(p) - a).max() / max(vals)
+    if not e <= 1e-9 * max(vals) / min(vals):
+        return 'gmd-typed-S:does-not-reconstruct' + sfx, 'max |Q R P^H - U S V^H| / s1 = %.3e for S = %r (%s)' % (e, vals, form)
+    gm = math.exp(float(np.mean(np.log(vals))))
+    if not np.abs(np.diag(r)[:k] - gm).max() <= 1e-9 * gm * max(vals) / min(vals):
+        return 'gmd-typed-S:diagonal-not-geometric-mean' + sfx, 'diag(R)=%r gm=%r' % (np.diag(r)[:k].tolist(), gm)
+    return None
+
+
 def eig_gap_class(c):
     w = np.linalg.eigvalsh(twin(c))
     if w.size < 2:
@@ -1586,6 +1627,7 @@ ORACLES = {
     'calc_chordal_distance': o_chordal,
     'calc_chordal_distance.invariance': o_chordal_invariance,
     'gmd': o_gmd,
+    'gmd.typed-S': o_gmd_typed_s,
     'calc_whitening_matrix': o_whitening,
     'update_inv_sum_diag': o_update_inv,
     'peig/leig': o_eig_select,
@@ -2775,6 +2817,15 @@ def oracles(ctx, scale):
         a = gen_rect(g)
         run_oracle(ctx, 'gmd', {'A': enc(a)})
         ctx.branch('gmd:' + ('square' if a.shape[0] == a.shape[1] else 'tall' if a.shape[0] > a.shape[1] else 'wide'))
+    # R1: the singular values themselves in another element type / container (every form, both shapes)
+    for i, form in enumerate(S_FORMS * scale):
+        k = 2 + i % 3
+        svals = sorted({rng.randint(1, 9) for _ in range(k + 3)}, reverse=True)[:k]
+        if len(svals) < 2:
+            svals = [5, 2]
+        run_oracle(ctx, 'gmd.typed-S', {'seed': rng.randint(0, 1 << 30), 'm': len(svals) + i % 2, 'n': len(svals) + (i // 2) % 2,
+                                        'cplx': i % 3 == 0, 'S': svals, 'form': form})
+        ctx.branch('oracle-R1:gmd-singular-values-typed')
     for _ in range(6 * scale):     # repeated singular values: unitary and scaled-unitary matrices
         n = rng.randint(1, 6)
         run_oracle(ctx, 'gmd', {'A': enc(g.unitary(n, rng.chance(0.5)) * float(rng.randint(1, 4)))})
@@ -2898,7 +2949,7 @@ def check(ctx):
                               'oracle-R12:order-of-listing', 'oracle-R13:derived-objects', 'oracle-R14:count>256']
     ctx.required_branches += ['oracle-R2:array-shape-', 'oracle-R2:array-shape-0', 'oracle-R2:array-shape-2x1x3',
                               'oracle-R3:independence', 'oracle-R4:rejected-calls', 'oracle-R7:object-history']
-    ctx.required_branches += c20_robust.CORR_BRANCHES + c20_robust.ORACLE_BRANCHES
+    ctx.required_branches += c20_robust.CORR_BRANCHES + c20_robust.ORACLE_BRANCHES + ['oracle-R1:gmd-singular-values-typed']
     try:
         correspondence(ctx, scale)
     except core.Infra as e:
